@@ -66,7 +66,7 @@ class ABCProxy(LoaderProvider, DumperProvider):
 
         return mediator.mandatory_provide(
             LoaderRequest(
-                loc_stack=request.loc_stack.replace_last_type(self._impl),
+                loc_stack=request.loc_stack.replace_last_type(self._get_impl(request.last_loc.type)),
             ),
             lambda x: f"Cannot create loader for union. Loader for {self._impl} cannot be created",
         )
@@ -77,7 +77,12 @@ class ABCProxy(LoaderProvider, DumperProvider):
 
         return mediator.mandatory_provide(
             DumperRequest(
-                loc_stack=request.loc_stack.replace_last_type(self._impl),
+                loc_stack=request.loc_stack.replace_last_type(self._get_impl(request.last_loc.type)),
             ),
             lambda x: f"Cannot create dumper for union. Dumper for {self._impl} cannot be created",
         )
+
+    def _get_impl(self, tp: TypeHint) -> TypeHint:
+        # type arguments of the abstract type belong to the implementation too: Mapping[int, str] -> dict[int, str]
+        args = tuple(arg.source for arg in normalize_type(tp).args)
+        return self._impl[args] if args else self._impl
